@@ -24,7 +24,7 @@ pub fn def() -> CheckDef {
             real: super::REAL_COMPONENTS,
             stub: super::STUB_COMPONENTS,
         },
-        runs: |t| if t.thorough() { 150_000 } else { 3_000 },
+        runs: |t| if t.thorough() { 200_000 } else { 20_000 },
         run,
         execute,
         expected_probes: &[
